@@ -20,6 +20,16 @@ def run_property(prop, tier, configs=None, repo=None, quiet=False):
         for i in P.run_rule(rule, facts, tier):
             if prop in i.props:
                 insts.append(i)
+    if tier == 'thorough':
+        # every rule is also evaluated on the MIR of the other build configurations (no `prefetch` feature; no debug
+        # assertions / overflow checks): a violation that exists only there is reported under the same key
+        have = {(i.key, i.status) for i in insts}
+        for cfg in ('nofeat', 'rel'):
+            for rule in spec['rules']:
+                for i in P.run_rule_config(rule, facts, cfg):
+                    if prop in i.props and i.status == 'violation' and (i.key, 'violation') not in have:
+                        have.add((i.key, 'violation'))
+                        insts.append(report.Inst(i.rule, i.key, 'violation', i.where, '[configuration %s] %s' % (cfg, i.detail), i.props, sample=i.sample))
     return insts, facts, key
 
 
@@ -65,14 +75,25 @@ def main(argv):
             viol.append(report.Inst(rule, '%s|floor' % rule, 'violation', '',
                                     'only %d instances evaluated, floor is %d (anchors lost?)' % (by_rule.get(rule, 0), floor),
                                     [prop]))
+    selftest_notes = []
     if a.tier == 'thorough':
         extra_v, extra_info = P.thorough_extras(prop, facts, a.repo)
-        viol.extend(extra_v)
+        # the self-test of the checker (seeded defects reported, benign edits silent) says something about the CHECKER, not
+        # about this tree: its outcome is recorded in the evidence and printed, but it is not a violation of the property
+        for v in extra_v:
+            if v.rule == 'SELFTEST':
+                selftest_notes.append(v)
+            else:
+                viol.append(v)
+        extra_info['configs_evaluated_per_rule'] = ['default', 'nofeat', 'rel']
+        extra_info['selftest_regressions'] = [v.key for v in selftest_notes]
     else:
         extra_info = {}
     wall = time.time() - t0
     for i in known_hits:
         print('KNOWN-FINDING: property=%s %s %s' % (prop, i.key, known[(prop, i.key)]))
+    for v in selftest_notes:
+        print('CHECKER-SELFTEST: %s %s' % (v.key, v.detail[:200]))
     n_fns = sum(1 for _ in facts['default'].lib_fns())
     extra = {
         'rule_text': spec['rule_text'],
